@@ -629,6 +629,20 @@ class Flow:
                 return either(ap, bp), both(an, bn)
             if op in ('==', '!='):
                 l, r = fn.nodes[fn.strip(n['ch'][0])], fn.nodes[fn.strip(n['ch'][1])]
+                # (x & M) == M : every bit of M is set in x
+                if 'cv' in r and int(r['cv']) > 0 and l['k'] == 'BinaryOperator' and l.get('op') == '&' and \
+                        is_intlike(l.get('t', '')):
+                    mval = int(r['cv'])
+                    sides = [fn.nodes[fn.strip(c)] for c in l['ch']]
+                    if any('cv' in sd and int(sd['cv']) == mval for sd in sides) and mval < (1 << NBITS):
+                        bv = self.eval_bv(n['ch'][0], env)
+                        allset = TRUE
+                        for kbit in range(NBITS):
+                            if (mval >> kbit) & 1:
+                                allset = dnf_and(allset, bv.bits[kbit]) if allset is not None else None
+                        if allset is not None and self._useful(allset):
+                            nall = dnf_not(allset)
+                            return (allset, nall) if op == '==' else (nall, allset)
                 if 'cv' in r and int(r['cv']) == 0 and is_intlike(l.get('t', '')) and l.get('t') != 'bool':
                     bv = self.eval_bv(n['ch'][0], env)
                     nz = bv.nonzero()
